@@ -93,13 +93,33 @@ impl<'a> Z<'a> {
     Ok(format!("[{}]", out.join("; ")))
   }
 
-  /// `core::mem::needs_drop::<T>()`, possibly negated: Some(negated)
-  fn needs_drop_cond(&self, e: &syn::Expr) -> Option<bool> {
+  /// a condition on the element type: needs_drop::<T>(), size_of::<T>() ==/!= 0, and their ! && || combinations
+  fn cond(&self, e: &syn::Expr) -> Option<String> {
+    fn is_zero(e: &syn::Expr) -> bool {
+      match e { syn::Expr::Lit(l) => matches!(&l.lit, syn::Lit::Int(i) if i.base10_digits() == "0"), syn::Expr::Paren(p) => is_zero(&p.expr), _ => false }
+    }
+    fn is_size_of(e: &syn::Expr) -> bool {
+      match e {
+        syn::Expr::Paren(p) => is_size_of(&p.expr),
+        syn::Expr::Call(c) if c.args.is_empty() => matches!(&*c.func, syn::Expr::Path(p) if path_last(&p.path) == "size_of"),
+        _ => false,
+      }
+    }
     match e {
-      syn::Expr::Paren(p) => self.needs_drop_cond(&p.expr),
-      syn::Expr::Unary(u) if matches!(u.op, syn::UnOp::Not(_)) => self.needs_drop_cond(&u.expr).map(|n| !n),
+      syn::Expr::Paren(p) => self.cond(&p.expr),
+      syn::Expr::Unary(u) if matches!(u.op, syn::UnOp::Not(_)) => self.cond(&u.expr).map(|c| format!("(CNot {})", c)),
       syn::Expr::Call(c) if c.args.is_empty() => match &*c.func {
-        syn::Expr::Path(p) if path_last(&p.path) == "needs_drop" => Some(false),
+        syn::Expr::Path(p) if path_last(&p.path) == "needs_drop" => Some("CNeedsDrop".into()),
+        _ => None,
+      },
+      syn::Expr::Binary(b) => match b.op {
+        syn::BinOp::And(_) => Some(format!("(CAnd {} {})", self.cond(&b.left)?, self.cond(&b.right)?)),
+        syn::BinOp::Or(_) => Some(format!("(COr {} {})", self.cond(&b.left)?, self.cond(&b.right)?)),
+        syn::BinOp::Eq(_) | syn::BinOp::Ne(_) => {
+          let sz = (is_size_of(&b.left) && is_zero(&b.right)) || (is_zero(&b.left) && is_size_of(&b.right));
+          if !sz { return None; }
+          Some(if matches!(b.op, syn::BinOp::Eq(_)) { "CSizeZero".into() } else { "(CNot CSizeZero)".into() })
+        }
         _ => None,
       },
       _ => None,
@@ -173,7 +193,7 @@ impl<'a> Z<'a> {
       syn::Expr::Block(b) if b.label.is_none() => Ok(format!("SBlock {}", self.block(&b.block)?)),
       syn::Expr::Call(c) => self.call_stmt(c),
       syn::Expr::If(i) => {
-        let neg = self.needs_drop_cond(&i.cond).ok_or_else(|| format!("condition `{}`", { let c = &i.cond; quote::quote!(#c) }))?;
+        let cnd = self.cond(&i.cond).ok_or_else(|| format!("condition `{}`", { let c = &i.cond; quote::quote!(#c) }))?;
         let a = self.block(&i.then_branch)?;
         let b = match &i.else_branch {
           None => "[]".to_string(),
@@ -182,7 +202,7 @@ impl<'a> Z<'a> {
             other => format!("[{}]", self.expr_stmt(other)?),
           },
         };
-        Ok(format!("SIfNeedsDrop {} {} {}", neg, a, b))
+        Ok(format!("SIf {} {} {}", cnd, a, b))
       }
       syn::Expr::MethodCall(m) if m.method == "for_each" && m.args.len() == 1 => {
         let f = self.fn_ref(&m.args[0])?;
